@@ -310,24 +310,35 @@ def run(ctx):
     nonpauli = [g for g in g1 if g not in ("X", "Y", "Z", "I")]
     ctx.coverage["alphabet"] = {"mbqc_gates": g1 + ["CNOT", "GlobalPhase"], "gateset_letters": [a[0] for a in GS_ALPH], "angles": ANG}
     ctx.coverage["bound"] = {"formalism_word_len": 2, "cnot_branches": 8192, "byproduct_word_len": 2 if ctx.quick else 3, "gateset_word_len": 2}
-    total_branches = 0
+    ctx._c74_leaves, ctx._c74_trees = 0, 0
+
+    def count(specs, inputs=True):
+        for sp in specs:
+            m = sum(13 if g == "CNOT" else (0 if g in ("X", "Y", "Z", "I", "GlobalPhase") else 4) for g, _ in sp["word"])
+            trees = 2 ** sp["nw"] if inputs else 1
+            ctx._c74_leaves += trees * 2 ** m
+            ctx._c74_trees += trees
+        return specs
+
     if want("single"):
         specs = [{"k": "f", "word": [[g, [0]]], "nw": 1, "diag": d} for g in g1 for d in (False, True)]
         specs += [{"k": "f", "word": [[g, [0]], ["GlobalPhase", []]], "nw": 1, "diag": False} for g in ("H",)]
         specs += [{"k": "f", "word": [[g, [1]], [h, [0]]], "nw": 2, "diag": d} for g in ("H", "RotXZX(a,b,c)") for h in ("S", "RZ(a)") for d in (False, True)]
-        ctx.enumerate(specs, fn="check_formalism", axis="formalism:single", chunk=1)
+        ctx.enumerate(count(specs), fn="check_formalism", axis="formalism:single", chunk=1)
     if want("pairs"):
         pairs = [(a, b) for a in g1 for b in g1 if a in nonpauli or b in nonpauli]
         if ctx.quick:
             pairs = [(a, b) for a, b in pairs if a in nonpauli and b in nonpauli] + [(a, b) for a, b in pairs if (a in ("X", "Y") or b in ("Z", "I"))]
         specs = [{"k": "f", "word": [[a, [0]], [b, [0]]], "nw": 1, "diag": d} for a, b in pairs for d in (False, True)]
-        ctx.enumerate(specs, fn="check_formalism", axis="formalism:pairs", chunk=1)
+        ctx.enumerate(count(specs), fn="check_formalism", axis="formalism:pairs", chunk=1)
     if want("cnot"):
         words = [[["CNOT", [0, 1]]], [["CNOT", [1, 0]]]]
-        if not ctx.quick:
-            words += [[["H", [0]], ["CNOT", [0, 1]]], [["CNOT", [0, 1]], ["S", [1]]], [["Y", [1]], ["CNOT", [1, 0]], ["Z", [0]]]]
         specs = [{"k": "f", "word": w, "nw": 2, "diag": d} for w in words for d in (False, True)]
-        ctx.enumerate(specs, fn="check_formalism", axis="formalism:cnot", chunk=1)
+        if not ctx.quick:
+            specs += [{"k": "f", "word": [["Y", [1]], ["CNOT", [1, 0]], ["Z", [0]]], "nw": 2, "diag": d} for d in (False, True)]
+            specs += [{"k": "f", "word": [["H", [0]], ["CNOT", [0, 1]]], "nw": 2, "diag": False},       # 2^17 branches x 4 inputs each
+                      {"k": "f", "word": [["CNOT", [0, 1]], ["S", [1]]], "nw": 2, "diag": True}]
+        ctx.enumerate(count(specs), fn="check_formalism", axis="formalism:cnot", chunk=1)
     if want("tracker"):
         specs = [{"k": "c", "gate": g, "wires": [w], "xz": [list(f)]} for g in ("H", "S") for w in (0, 3) for f in itertools.product((0, 1), repeat=2)]
         specs += [{"k": "c", "gate": "CNOT", "wires": ws, "xz": [list(f[:2]), list(f[2:])]} for ws in ([0, 1], [2, 0]) for f in itertools.product((0, 1), repeat=4)]
@@ -345,11 +356,11 @@ def run(ctx):
         words1 = [[[g, [0]] for g in w] for n in range(1, L + 1) for w in itertools.product(cl, repeat=n) if any(g in ("H", "S") for g in w)]
         words1 += [[[r, [0]]] + [[g, [0]] for g in w] for r in ("RZ(a)", "RotXZX(a,b,c)") for n in range(0, L) for w in itertools.product(("H", "S"), repeat=n)]
         specs = [{"k": "b", "word": w, "nw": 1, "diag": False} for w in words1]
-        two = [[["H", [0]], ["CNOT", [0, 1]]], [["CNOT", [1, 0]]], [["RotXZX(a,b,c)", [0]], ["RZ(a)", [1]], ["CNOT", [0, 1]]]]
+        two = [[["CNOT", [0, 1]]], [["CNOT", [1, 0]]], [["X", [0]], ["CNOT", [0, 1]], ["Z", [1]]]]          # 2^13 assignments each
         if not ctx.quick:
-            two += [[["H", [1]], ["S", [1]], ["CNOT", [1, 0]], ["H", [0]]]]
+            two += [[["H", [0]], ["CNOT", [0, 1]]], [["RZ(a)", [1]], ["CNOT", [1, 0]]], [["CNOT", [0, 1]], ["S", [0]]]]   # 2^17 each
         specs += [{"k": "b", "word": w, "nw": 2, "diag": False} for w in two]
-        ctx.enumerate(specs, fn="check_byproduct", axis="tracker:byproduct", chunk=1)
+        ctx.enumerate(count(specs, inputs=False), fn="check_byproduct", axis="tracker:byproduct", chunk=1)
     if want("gateset"):
         ws = [[a] for a in GS_ALPH] + [[a, b] for a in GS_ALPH for b in GS_ALPH]
         if ctx.quick:
@@ -357,17 +368,8 @@ def run(ctx):
         ctx.enumerate([{"k": "g", "ops": w} for w in ws], fn="check_gateset", axis="gateset")
     if want("reject"):
         ctx.enumerate([{"k": "r", "what": w} for w in ("expval", "two-samples", "foreign-gate", "gateset-without-graph")], fn="check_reject", axis="reject")
-    # model-checking counters: states = branch leaves visited, transitions = measurement splits; filled from the specs' sizes
-    leaves = 0
-    for ax, cnt in ctx.per_axis.items():
-        if ax == "formalism:single":
-            leaves += cnt * 2 * 16
-        elif ax == "formalism:pairs":
-            leaves += cnt * 2 * 256
-        elif ax == "formalism:cnot":
-            leaves += cnt * 4 * 8192
-        elif ax == "tracker:byproduct":
-            leaves += cnt * 16
-    ctx.coverage["states"] = max(1, leaves)
-    ctx.coverage["transitions"] = max(1, 2 * leaves - 2)
-    ctx.coverage["traces_validated_against_impl"] = max(1, leaves)
+    # model-checking counters: leaves of the outcome trees that are walked (exact: 4 measurements per one-qubit non-Pauli
+    # gate, 13 per CNOT, one tree per computational input) and the measurement splits leading to them
+    ctx.coverage["states"] = max(1, ctx._c74_leaves)
+    ctx.coverage["transitions"] = max(1, 2 * ctx._c74_leaves - 2 * ctx._c74_trees)
+    ctx.coverage["traces_validated_against_impl"] = max(1, ctx._c74_leaves)
